@@ -908,6 +908,87 @@ def rule_r7(prog, res, tier):
     res.share('R7', txt, 'C10', c10.rule_r1, prog, Result, tier)
 
 
+# ------------------------------------------------------------------- R8
+def rule_r8(prog, res):
+    res.rule('R8', 'listener containers are ordered everywhere in the event '
+             'manager; nothing in call_wrapper can raise once the user '
+             'function has returned')
+    m = prog.module('spyne.evmgr')
+    n = 0
+    for f in m.functions.values():
+        for x in walk_no_defs(f.node):
+            unordered = isinstance(x, (ast.Set, ast.SetComp)) or (
+                isinstance(x, ast.Call) and isinstance(x.func, ast.Name) and
+                x.func.id in ('set', 'frozenset'))
+            if isinstance(x, ast.Call) and isinstance(x.func, ast.Name) and \
+                    x.func.id in ('oset', 'dict', 'set', 'frozenset', 'list'):
+                n += 1
+            if not unordered:
+                continue
+            where = '%s:%d' % (m.relpath, x.lineno)
+            res.ob('R8', where, '%s builds %s' % (f.qualname,
+                                                  unparse(x)[:40]),
+                   'VIOLATED')
+            res.finding('R8', '%s|unordered-container|%s' % (
+                f.qualname, unparse(x)[:30]), where,
+                '%s stores listeners in a plain set (%s): they still run '
+                'once each but in hash order, so listeners inherited from a '
+                'base service no longer run in registration order' % (
+                    f.qualname, unparse(x)[:40]))
+    res.floor('R8', 'container constructions in spyne.evmgr', n, 2)
+    k = 0
+    for cfq in ('spyne.service:ServiceBaseBase',):
+        c = prog.cls(cfq, required=False)
+        f = c.methods.get('call_wrapper') if c is not None else None
+        if f is None:
+            continue
+        calls = [x for x in calls_in(f.node) if 'function' in unparse(x.func)
+                 and unparse(x.func).startswith('ctx.')]
+        if not calls:
+            continue
+        k += 1
+        last = max(x.lineno for x in calls)
+        later = [r for r in walk_no_defs(f.node) if isinstance(r, ast.Raise)
+                 and r.lineno > last]
+        wraps = [t for x in calls for t, region in enclosing_trys_(
+            x, f.node) if region == 'body' and any(
+            isinstance(y, ast.Raise) and y.exc is not None
+            for h in t.handlers for y in ast.walk(h))]
+        ok = not later and not wraps
+        res.ob('R8', f.where, '%s: %d raise statement(s) after the user '
+               'function call, %d converting handler(s) around it' % (
+                   f.qualname, len(later), len(wraps)),
+               'ok' if ok else 'VIOLATED')
+        for r in later[:1]:
+            res.finding('R8', '%s|raise-after-function' % f.qualname,
+                        '%s:%d' % (f.module.relpath, r.lineno),
+                        '%s raises (%s) after the user function has '
+                        'returned normally: process_request then skips '
+                        'method_return_object and fires the exception events '
+                        'for a call whose function did return' % (
+                            f.qualname, unparse(r)[:50]))
+        for t in wraps[:1]:
+            res.finding('R8', '%s|converting-handler' % f.qualname,
+                        '%s:%d' % (f.module.relpath, t.lineno),
+                        '%s wraps the user function in a handler that raises '
+                        'a different exception: exceptions of the user\'s '
+                        'own code are re-labelled before process_request '
+                        'classifies them' % f.qualname)
+    res.floor('R8', 'call_wrapper implementations', k, 1)
+
+
+def enclosing_trys_(node, stop):
+    from ..flow import enclosing_trys
+    return enclosing_trys(node, stop=stop)
+
+
+def rule_r9(prog, res):
+    from . import c10
+    from ..report import Result
+    res.share('R9', 'a malformed envelope is refused with a Fault inside '
+              'the funnel (C10-R11)', 'C10', c10.rule_r11, prog, Result)
+
+
 def run(prog, res, tier):
     res.run_rule(rule_r1, prog, res, tier)
     res.run_rule(rule_r2, prog, res)
@@ -916,6 +997,8 @@ def run(prog, res, tier):
     res.run_rule(rule_r5, prog, res)
     res.run_rule(rule_r6, prog, res)
     res.run_rule(rule_r7, prog, res, tier)
+    res.run_rule(rule_r8, prog, res)
+    res.run_rule(rule_r9, prog, res)
 
 
 _A = 'spyne/application.py'
@@ -928,6 +1011,18 @@ _D = 'spyne/descriptor.py'
 _O = 'spyne/util/oset.py'
 
 MUTANTS = [
+    Mutant('handler-sets-copied-as-sets', 'R8', 'fire', 'spyne/evmgr.py',
+           in_func('EventManager.__init__',
+                   "self.handlers = dict(handlers)",
+                   "self.handlers = dict((k, set(v)) for k, v in "
+                   "handlers.items())"), 'unordered-container'),
+    Mutant('arity-check-after-function', 'R8', 'fire', 'spyne/service.py',
+           in_func('ServiceBaseBase.call_wrapper',
+                   "            return ctx.function(*args)",
+                   "            retval = ctx.function(*args)\n"
+                   "            if retval is NotImplemented:\n"
+                   "                raise TypeError(retval)\n"
+                   "            return retval"), 'raise-after-function'),
     Mutant('reentrancy-guard-leaks', 'R6', 'fire', 'spyne/evmgr.py',
            in_func('EventManager.fire_event',
                    "        for handler in handlers:\n"
